@@ -293,7 +293,7 @@ func (f *Flow) Exits() []Exit {
 // AtExit returns the facts holding at an exit (after its last node).
 func (s *Sol) AtExit(e Exit) Facts {
 	if e.Ret != nil {
-		return s.Before[e.Ret]
+		return s.After[e.Ret] // the result expressions have been evaluated
 	}
 	return s.Out[e.Block]
 }
